@@ -409,6 +409,9 @@ func check(prop string, ws *worldSpec, tier string, seed uint64, runsOverride, w
 	runs := ws.quick
 	if tier == "thorough" {
 		runs = ws.thorough
+		// a hundred times the runs: the most expensive rare scenarios of a world
+		// become rarer by this factor (their number still grows fourfold)
+		os.Setenv("SIM_RARITY", "25")
 		for i := uint64(0); i < 8; i++ {
 			seeds = append(seeds, seed+i*1000003)
 		}
